@@ -286,7 +286,7 @@ class Check:
 
     def disagree(self, domain, request, impl, model):
         if len(self.disagreements) < 50:
-            self.disagreements.append((domain, request, impl, model))
+            self.disagreements.append((domain, request[:400], impl[:400], model[:400]))
         self.count('disagreements:' + domain)
 
     def compare(self, domain, requests, impl_out, model_out, cases=None, oracle=None):
